@@ -449,7 +449,14 @@ def csvtext_case(rng, tier):
             t = b"\xef\xbb\xbf" + t
     if re.search(rb"[eE][+-]?\d{3,}|[\d.,]{16,}", t):
         t = b"a,b\n1,2\n"       # exponents / mantissas outside the range the double arithmetic of myatof is compared on
-    return ["tabread " + hexs(t)]
+    ops = ["tabread " + hexs(t)]
+    if rng.random() < 0.4:
+        # the same arbitrary text read with readAs: 's', 'i' (myatoi on anything) and dropped columns only ('n' would run
+        # myatof on arbitrary bytes, whose double arithmetic the model does not follow outside number texts);
+        # fewer or more type characters than the rows have cells
+        types = "".join(rng.choice("ssiix_") for _ in range(rng.randrange(0, 6)))
+        ops.append("tabreadt %s %s" % (types or "-", hexs(t)))
+    return ops
 
 
 def atof_case(rng, tier):
